@@ -101,6 +101,18 @@ class Search:
             out.append((t, p))
         return out
 
+    def budget_left(self):
+        """classification (re-running a failing case with counterfactual repairs) is capped so that a run with many
+        failing cases stays inside the time budget; the first failing cases are always classified and reported"""
+        fnb = os.path.join(os.environ.get("VERIF_TMP", "/tmp"), "c05_budget_%d" % os.getppid() if isinstance(self.c, Rec) else "c05_budget_%d" % os.getpid())
+        try:
+            fd = os.open(fnb, os.O_WRONLY | os.O_CREAT | os.O_APPEND)
+            os.write(fd, b"x")
+            os.close(fd)
+            return os.path.getsize(fnb) <= (400 if self.c.thorough else 60)
+        except OSError:
+            return True
+
     def classify_continue(self, cfg, a0_bytes, path, k, d_first):
         """a continuation difference was found: decide by counterfactual repair whether it is one of the recorded
         findings; returns a finding key or None (fresh violation)"""
@@ -146,7 +158,19 @@ class Search:
         apply_ops(a, cfg.get("post", [])); apply_ops(r, cfg.get("post", []))
         advance(a, k); advance(r, k)
         d2 = R.first_difference(self.semantic(R.persisted_view(a)), self.semantic(R.persisted_view(r)))
-        return key if d2 is None else None
+        if d2 is None:
+            return key
+        if key.startswith("F9b"):
+            # F9b-2: after a change of the particle number the ORIGINAL sets first_or_last_step=1 lazily in its next
+            # step (length of the N-body ODE changed) while a simulation saved in between and restored cannot know
+            a = build_sim(rb, cfg); advance(a, cfg["save_after"]); self.pre_save_edit(a, cfg)
+            r, _ = self.restore(a, path); attach(r, cfg)
+            self.poke(r, "ri_bs.first_or_last_step", 1, ctypes.c_int)
+            apply_ops(a, cfg.get("post", [])); apply_ops(r, cfg.get("post", []))
+            advance(a, k); advance(r, k)
+            if R.first_difference(self.semantic(R.persisted_view(a)), self.semantic(R.persisted_view(r))) is None:
+                return "F9b-2:bs-first_or_last_step-set-lazily-after-particle-number-change"
+        return None
 
     def first_divergence(self, cfg, path, k):
         """rebuild original and restored, step one at a time; returns (a, r, step, t_before, N_before) at the first
@@ -294,6 +318,9 @@ class Search:
             c.violation("C05-N3:whfast-p_jh-uninitialised-bytes-persisted",
                         "after continuing, the persisted ri_whfast.p_jh differs only in members WHFast never initialises (%s)" % d2,
                         {"cfg": cfg, "path": path, "difference": d2})
+            return
+        if not self.budget_left():
+            self.hist["failing_cases_beyond_classification_budget"] = self.hist.get("failing_cases_beyond_classification_budget", 0) + 1
             return
         rawswitch = any(op.startswith("switchraw:") for op in cfg.get("pre", []) + cfg.get("post", []))
         fk = self.rawswitch_signature(cfg, path, k) if rawswitch else self.classify_continue(cfg, b0, path, k, d3)
@@ -929,10 +956,23 @@ def run_cases(c, S, cases, nproc=8, chunk=12):
             c.violation(key, "save/load/continue of a reachable simulation crashes the process (status %d), cfg %s path %s" % (status, cfg_key(cfg), path),
                         {"cfg": cfg, "path": path, "steps": k})
     queue = list(chunks)
+    t_end = time.time() + (1200 if c.thorough else 75)
+    try:
+        os.remove(os.path.join(os.environ.get("VERIF_TMP", "/tmp"), "c05_budget_%d" % os.getpid()))
+    except OSError:
+        pass
     while queue or running:
-        while queue and len(running) < nproc:
+        while queue and len(running) < nproc and time.time() < t_end:
             running.append(start(queue.pop(0)))
+        if not running:
+            break
         finish(running.pop(0))
+    if queue:
+        S.hist["cases_skipped_wall_budget"] = S.hist.get("cases_skipped_wall_budget", 0) + sum(len(q) for q in queue)
+    try:
+        os.remove(os.path.join(os.environ.get("VERIF_TMP", "/tmp"), "c05_budget_%d" % os.getpid()))
+    except OSError:
+        pass
 
 
 HIST_BASES = [("ias15", {}), ("ias15", {"adaptive_mode": 1}), ("whfast", {"safe_mode": 0}), ("whfast", {"safe_mode": 1}),
